@@ -70,7 +70,7 @@ class C13(Prop):
                    'gradient averaging done by the harness (phase "ddp") is excluded from the trace comparison',
                    'vkit/simdist records exactly the collectives the code issues']
     examples = {'quick': 150, 'thorough': 500}
-    shards = {'quick': 4, 'thorough': 16}
+    shards = {'quick': 8, 'thorough': 16}
     shrink_budget_s = {'quick': 30.0, 'thorough': 180.0}
     required_labels = {'quick': ['nontrivial=True', 'strategy=HYBRID', 'strategy=MEM', 'strategy=COMM', 'symmetry=True', 'has_load=True', 'changing_interval=True', 'eval_mode_layers=True', 'mixed_dtypes=True'],
                        'thorough': ['nontrivial=True', 'strategy=HYBRID', 'strategy=MEM', 'strategy=COMM', 'symmetry=True', 'bucketed=True']}
